@@ -247,7 +247,7 @@ type Client struct {
 }
 
 // Spawn starts a child node process (same binary, argument "node").
-func Spawn(name, scratch string) (*Client, error) {
+func Spawn(name, scratch string, extraEnv ...string) (*Client, error) {
 	self := os.Getenv("VERIF_SELF")
 	if self == "" {
 		self, _ = os.Executable()
@@ -269,7 +269,7 @@ func Spawn(name, scratch string) (*Client, error) {
 	cmd := exec.Command(self, "node", name)
 	cmd.ExtraFiles = []*os.File{reqR, rspW}
 	cmd.Stdout, cmd.Stderr = ef, ef
-	cmd.Env = append(os.Environ(), "ARGLIB_LEVEL=error", "GOTRACEBACK=all")
+	cmd.Env = append(append(os.Environ(), "ARGLIB_LEVEL=error", "GOTRACEBACK=all"), extraEnv...)
 	if err := cmd.Start(); err != nil {
 		return nil, err
 	}
@@ -493,4 +493,40 @@ func (c *Client) JournalUnits() ([]UnitInfo, error) {
 }
 func (c *Client) Materialize(k, partial int, dir string) error {
 	return c.Call("Materialize", &MaterializeReq{k, partial, dir}, &empty)
+}
+
+type RawGetReq struct {
+	Store string
+	Key   []byte
+}
+
+func (s *Svc) RawGet(q *RawGetReq, r *[]byte) error {
+	*r = s.n.jr.Inner(q.Store).Get(q.Key)
+	return nil
+}
+func (c *Client) RawGet(store string, key []byte) ([]byte, error) {
+	var r []byte
+	err := c.Call("RawGet", &RawGetReq{store, key}, &r)
+	return r, err
+}
+
+type StoredRcptReq struct {
+	Hash []byte
+	No   uint64
+}
+type StoredRcptRsp struct {
+	Bytes []byte // Receipts.MarshalBinary of the receipts decoded from the chain DB
+	Root  []byte // their merkle root
+	N     int
+	Err   string
+}
+
+func (s *Svc) StoredReceipts(q *StoredRcptReq, r *StoredRcptRsp) error {
+	*r = *s.n.StoredReceipts(q.Hash, q.No)
+	return nil
+}
+func (c *Client) StoredReceipts(hash []byte, no uint64) (*StoredRcptRsp, error) {
+	var r StoredRcptRsp
+	err := c.Call("StoredReceipts", &StoredRcptReq{hash, no}, &r)
+	return &r, err
 }
